@@ -32,6 +32,8 @@ type PersistedJob struct {
 
 	Variables map[string]interface{} `json:",omitempty"`
 	User      string                 `json:",omitempty"`
+	// LastError is the error message of the job (e.g. of the last failed task)
+	LastError *string `json:",omitempty"`
 
 	Tasks []PersistedTask
 }
